@@ -57,7 +57,9 @@ func c11Exponents(r *Run) {
 	if tv := w.View("x/oracle/types", "Token.validate"); tv == nil {
 		r.bad("C11.R10", "bound|token-decimal", "-", "anchor", "Token.validate not found")
 	} else {
-		isDec := func(e ast.Expr) bool { return lastField(e) == "Decimal" && isParamOf(tv, rootIdent(e)) || lastField(e) == "Decimal" && isRecv(tv, rootIdent(e)) }
+		isDec := func(e ast.Expr) bool {
+			return lastField(e) == "Decimal" && isParamOf(tv, rootIdent(e)) || lastField(e) == "Decimal" && isRecv(tv, rootIdent(e))
+		}
 		lo := tv.rejectsWhen(tv.Decl.Body, func(f Fact) bool {
 			c, ok := factCmp(f)
 			return ok && c.Op == "<" && isDec(c.L) && exprString(c.R) == "0"
